@@ -22,13 +22,13 @@
     * `C30Gen_agree_one_numeric`   — more generally, whenever at least one side is one of those six and neither side
                                      is a decimal.
     * `C30Gen_exec_total_numeric`  — the executor table never fails on those pairs.
-  Disagreements of the unchanged tree (kernel-checked witnesses in the separate file IQE/Props/C30GenFindings.lean, which
-  is NOT part of the check — a repair of /repo changes those statements; both are outside the value model of `IQE.Spec`,
-  which has no DECIMAL / unsigned type, so no correspondence family samples them):
-    * `C30Gen_decimal_int_disagree`  — DECIMAL ∘ integer: the executor picks the INTEGER type (the decimal operand is
-                                     cast to an integer: `CAST(1.5 AS DECIMAL(10,2)) + 0` returns 1), the planner
-                                     reports Decimal128(38, 10).
-    * `C30Gen_unsigned_disagree`     — two unsigned operands: executed in UInt32 / UInt64, reported as Float64.
+  Disagreements outside the proved domain (kernel-checked statements in the separate file IQE/Props/C30GenFindings.lean,
+  which is NOT part of the check — a repair of /repo changes those statements; both are outside the value model of
+  `IQE.Spec`, which has no DECIMAL / unsigned type, so no correspondence family samples them):
+    * DECIMAL ∘ integer: until fix commit e24f569 the executor picked the INTEGER type (`CAST(1.5 AS DECIMAL(10,2)) + 0`
+      returned 1); now it computes in Decimal128(38, s). The planner still reports Decimal128(38, 10) for every scale
+      (`C30Gen_decimal_int_after_fix`).
+    * `C30Gen_unsigned_disagree` — two unsigned operands: executed in UInt32 / UInt64, reported as Float64.
 -/
 import IQE.Gen.Coerce
 namespace IQE.Props.C30Gen
